@@ -451,6 +451,13 @@ EncName(st, ls, ctx, type, lay) ==
 
 PutStr(st, s) == Put(Mark(st, "str"), <<Len(s)>> \o s)
 
+(* short opaque RDATA: its first even offsets are offered as pointer targets to the "ptr" mutation, so *)
+(* that pointer cycles can be placed in bytes that are never themselves decoded as a name             *)
+MarkRaw(st, n) ==
+  IF n < 2 \/ n > 16 THEN st
+  ELSE [st EXCEPT !.marks = st.marks \o
+          [i \in 1..(IF n >= 6 THEN 3 ELSE IF n >= 4 THEN 2 ELSE 1) |-> <<Len(st.out) + 2 * (i - 1), "raw">>]]
+
 RECURSIVE PutChunks(_, _, _)
 PutChunks(st, cs, i) == IF i > Len(cs) THEN st ELSE PutChunks(PutStr(st, cs[i]), cs, i + 1)
 
@@ -492,7 +499,7 @@ EncRd(st, rr, lay) ==
              PutTLVs(EncName(Put(st, BE16(rd.priority)), rd.target, "rd", t, lay), rd.params, 1)
         [] rd.k = "URI"   -> Put(st, BE16(rd.priority) \o BE16(rd.weight) \o rd.target)
         [] rd.k = "CAA"   -> Put(PutStr(Put(st, <<rd.critical>>), rd.tag), rd.value)
-        [] rd.k = "RAW"   -> Put(st, rd.data)
+        [] rd.k = "RAW"   -> Put(MarkRaw(st, Len(rd.data)), rd.data)
 
 (* For an interpreted OPT RR class and TTL are derived from the RDATA      *)
 (* fields and from the message rcode (extended bits).                      *)
